@@ -34,7 +34,7 @@ type cliOpts struct {
 	AgentCloseErr bool  `json:"agent_close_err,omitempty"`
 	MsgSize       []int `json:"msg_size,omitempty"` // per transaction slot, 0 = 20 bytes
 	PoolFanout    bool  `json:"pool_fanout,omitempty"`
-	Reentrant     bool  `json:"reentrant,omitempty"` // handlers call back into the client (Indicate, Start, Close) when they get an error
+	Reentrant     bool  `json:"reentrant,omitempty"`   // handlers call back into the client (Indicate, Start, Close) when they get an error
 	StallWrite    bool  `json:"stall_write,omitempty"` // Write blocks until the connection is closed, then fails (TCP back pressure)
 	MaxAttempts   int   `json:"-"`
 }
@@ -179,11 +179,11 @@ type cliWorld struct {
 	client *stun.Client
 	msgs   map[int]*stun.Message // per slot, the caller's message
 	// deliveries the network performed: raw datagrams
-	delivered [][]byte
-	closeRets int
-	fatal     string
-	rtoNow    time.Duration
-	endPos    int
+	delivered        [][]byte
+	closeRets        int
+	fatal            string
+	rtoNow           time.Duration
+	endPos           int
 	agentStartFailed bool
 }
 
